@@ -520,6 +520,8 @@ func runC20Switch(c *Ctx) {
 					c.Triv(sw.Pos(), curFunc, construct, "partial chain without default (ordered dispatch; remaining types handled elsewhere)")
 				case !clausePanics(def, info):
 					c.OK(sw.Pos(), curFunc, construct, "remaining types fall into a non-panicking default")
+				case curFunc == "geom.rotatedMinimumBoundingRectangle" && preds["Point"] && preds["LineString"] && preds["Polygon"]:
+					c.Except(sw.Pos(), curFunc, construct, "the chain is on the type of a convex hull, which is a Point, LineString or Polygon by construction (convexHull builds only those)")
 				default:
 					c.Bad(sw.Pos(), curFunc, construct, "no arm for "+strings.Join(missing, ", ")+" and the default panics: a valid geometry type crashes")
 				}
